@@ -9,7 +9,7 @@ from typing import Any, Iterator
 from jinja2 import nodes
 
 from .. import tplq
-from ..astutil import ERROR_CLASSES, ERROR_ONLY_HELPERS, Locals, call_name, calls_in, error_names, names_in, norm, region, stmt_of, terminals, where
+from ..astutil import ERROR_CLASSES, ERROR_ONLY_HELPERS, Locals, call_name, calls_in, error_names, names_in, norm, region, short, stmt_of, terminals, where
 from ..cfg import CFG
 from ..core import PKG, Report
 from ..jinja_interp import expr_text
@@ -20,8 +20,9 @@ LEVEL = ("structural clauses (the bytes httpx sends are not decided): wire names
          "values for header/cookie/query; path placeholders rewritten (braces included) and formatted over the same collection, a mismatch "
          "between path template and path parameters can only end in an error; generated locals "
          "defined under guards implied by every use (truth tables); body-type table exhaustive and consistent with httpx keyword "
-         "names, Content-Type from the document's own key; optional arguments guarded; header values converted to str for every "
-         "non-str kind allowed in headers; the query filter drops UNSET and nothing but UNSET / None; sync/async variants equal as token "
+         "names, Content-Type from the document's own key; the model of a multipart body is flagged for to_multipart, registered, and the "
+         "flag never lowered; optional arguments guarded; header values converted to str for every non-str kind allowed in headers (what "
+         "transform_header writes is a str on every path and is what header_params stores); the query filter drops UNSET and nothing but UNSET / None; sync/async variants equal as token "
          "streams; security, the credential header overwritten before both httpx clients are built; parameter identity is (name, location).")
 
 
@@ -650,6 +651,51 @@ def _security_truth(e: ast.expr, lc: Locals) -> bool | None:
     return True
 
 
+STR_BUILTINS = ("str", "repr", "format", "ascii")
+STR_METHODS = ("format", "format_map", "join", "lower", "upper", "casefold", "title", "capitalize", "swapcase", "strip", "lstrip", "rstrip",
+               "replace", "removeprefix", "removesuffix", "zfill", "ljust", "rjust", "center", "expandtabs", "translate")
+TO_STR_METHODS = ("isoformat", "strftime", "decode", "hex")
+
+
+def _is_str(e: ast.AST) -> bool:
+    """the generated expression is a str whatever the values of its operands: a literal, an f-string, str(...), a method of str on a
+    str, a conversion method of the standard library (isoformat / strftime / decode / hex), both arms of a conditional, a sum of strs"""
+    if isinstance(e, ast.Constant):
+        return isinstance(e.value, str)
+    if isinstance(e, ast.JoinedStr):
+        return True
+    if isinstance(e, ast.IfExp):
+        return _is_str(e.body) and _is_str(e.orelse)
+    if isinstance(e, ast.BoolOp):
+        return all(_is_str(v) for v in e.values)
+    if isinstance(e, ast.BinOp):
+        return (isinstance(e.op, ast.Add) and _is_str(e.left) and _is_str(e.right)) or (isinstance(e.op, ast.Mod) and _is_str(e.left))
+    if isinstance(e, ast.Subscript):
+        return _is_str(e.value)
+    if isinstance(e, ast.Call):
+        if isinstance(e.func, ast.Name):
+            return e.func.id in STR_BUILTINS
+        if isinstance(e.func, ast.Attribute):
+            return e.func.attr in TO_STR_METHODS or (e.func.attr in STR_METHODS and _is_str(e.func.value))
+    return False
+
+
+def _py_of(ps: list[_Piece], mode: str) -> tuple[ast.AST | None, dict[str, _Piece]]:
+    """the Python a path writes, parsed (mode: eval / exec), every hole an identifier of its own: (tree or None, identifier -> hole)"""
+    holes: dict[str, _Piece] = {}
+    text = ""
+    for p in ps:
+        if p.kind == "t":
+            text += p.text
+        else:
+            holes[f"HOLE_{len(holes)}_"] = p
+            text += f"HOLE_{len(holes) - 1}_"
+    try:
+        return ast.parse(textwrap.dedent(text).strip(), mode=mode), holes
+    except (SyntaxError, ValueError):
+        return None, holes
+
+
 def _generated_class(jx: Any, template: str, cls: str) -> ast.ClassDef | None:
     """the class as the template writes it (skeleton: macros inlined with the arguments of their call sites, holes as placeholders)"""
     text = "\n".join(to_lines(SkelWalker(jx, frozenset()).walk_template(template))[0])
@@ -686,12 +732,19 @@ def run(rep: Report, ctx: Any) -> str:
     rep.rule("R03.4", "optional arguments are not sent and set ones are: the query store is filtered, whenever it is built, by conditions "
                       "that drop UNSET and keep every value that is neither UNSET nor None; guarded_statement emits the statement without "
                       "its Unset test only for required properties (truth table); header stores go through guarded_statement")
-    rep.rule("R03.5", "every property class that allows the header location and whose Python type is not str defines transform_header")
+    rep.rule("R03.5", "every property class that allows the header location and whose Python type is not str defines transform_header; on "
+                      "every path through it transform_header writes one expression that is computed from its argument and is a str "
+                      "whatever the value (str(...), an f-string, a str literal per arm, ...); on every path through header_params on which "
+                      "the kind's template defines transform_header the value stored is what transform_header writes for the python name")
     rep.rule("R03.6", "sync_detailed/asyncio_detailed and sync/asyncio are equal as token streams modulo async/await and the client getter")
     rep.rule("R03.7", "requires_security is true exactly when the operation's security is not empty; on every path through `arguments` taken "
                       "for a secured operation the annotation of `client` is AuthenticatedClient; in the AuthenticatedClient class as "
                       "the template writes it, every construction of httpx.Client / httpx.AsyncClient is dominated by a store that overwrites "
                       "headers[self.auth_header_name] with a value read from self.token")
+    rep.rule("R03.10", "a model sent as multipart has to_multipart (which model.py.jinja writes only for a class whose is_multipart_body is set): "
+                       "a copy that sets is_multipart_body flows into Body(prop=) and into what is registered as classes_by_name; nowhere in "
+                       "the package is the flag of an existing object set to anything but True or `<its old value> or ...` (another use of "
+                       "the same class, as JSON or form data, must not take the method away)")
     rep.rule("R03.9", "parameter identity is (name, location): every comparison of the current parameter's name (or of a key built from it) in "
                       "add_parameters also receives its location - in the key, or in what selects the collection compared against")
 
@@ -1014,6 +1067,75 @@ def run(rep: Report, ctx: Any) -> str:
                   "Body.content_type is not the document's own media type key", where(g, c), lhs=norm(ct),
                   rhs="the key variable of the loop over <request body>.content")
 
+    # ---- R03.10 ------------------------------------------------------------------------------------------------------------
+    FLAG = "is_multipart_body"
+    mt = jx.templates.get("model.py.jinja")
+    rep.require(mt, "model.py.jinja")
+    to_mp = [f for f in tplq.frags(mt.tree.body) if f.kind == "data" and re.search(r"\bdef to_multipart\(", f.text)]
+    rep.require(to_mp, "def to_multipart in model.py.jinja")
+    if not all(tplq.implies(f, f"model.{FLAG}", True) for f in to_mp):
+        rep.ok("R03.10", "model.py.jinja::to_multipart", "unconditional", f"to_multipart does not depend on {FLAG}", nontrivial=False)
+    else:
+        def flag_value(c: ast.AST) -> ast.AST | None:
+            """the value a copy (evolve / replace) gives the flag"""
+            if isinstance(c, ast.Call) and call_name(c).rsplit(".", 1)[-1] in ("evolve", "replace") and c.args:
+                return next((k.value for k in c.keywords if k.arg == FLAG), None)
+            return None
+
+        def is_true(v: ast.AST | None, lc: Locals) -> bool:
+            v = _only_value(lc, v.id) or v if isinstance(v, ast.Name) else v
+            return isinstance(v, ast.Constant) and v.value is True
+
+        def flows(g: Any, v: ast.AST) -> list[ast.AST]:
+            return [n for x in _sources(brg, g, v) for n in ast.walk(x)]
+
+        # the model of a multipart body gets the method: a copy that sets the flag is what Body(prop=) receives and what is registered
+        # (what value it may give the flag is the second clause)
+        raised = [c for g in brg.funcs for c in calls_in(g.node) if flag_value(c) is not None]
+        in_body = [c for c in raised if any(x is c for g, b in body_calls for v in [body_arg(b, "prop")] if v is not None for x in flows(g, v))]
+        registered = []
+        for g in brg.funcs:
+            for n in ast.walk(g.node):
+                vals = [k.value for k in n.keywords if k.arg == "classes_by_name"] if isinstance(n, ast.Call) else []
+                if isinstance(n, ast.Assign) and any(isinstance(t, ast.Subscript) and isinstance(t.value, ast.Attribute) and t.value.attr == "classes_by_name"
+                                                     for t in n.targets):
+                    vals.append(n.value)
+                # (a dict that is filled after it was made - d[k] = v, d.update(...), d.setdefault(k, v) - holds what was put into it)
+                for nm in {x for v in vals for x in names_in(v)}:
+                    for m in ast.walk(g.node):
+                        if isinstance(m, ast.Assign) and any(isinstance(t, ast.Subscript) and norm(t.value) == nm for t in m.targets):
+                            vals.append(m.value)
+                        elif isinstance(m, ast.Call) and isinstance(m.func, ast.Attribute) and norm(m.func.value) == nm and m.func.attr in ("update", "setdefault"):
+                            vals += [*m.args, *[k.value for k in m.keywords]]
+                registered += [c for c in in_body for v in vals if any(x is c for x in flows(g, v))]
+        rep.check(bool(registered), "R03.10", "body_from_data::multipart-model-flagged-and-registered",
+                  f"no copy of the body's model that sets {FLAG} reaches both Body(prop=) and classes_by_name: a model sent as multipart "
+                  "would have no to_multipart", where(bfd, bfd.node), lhs={"flag raised": len(raised), "reaches Body": len(in_body)})
+        # and no other use of the class takes it away again: the flag of an existing object is only ever raised
+        n_flag = 0
+        for f in ix.all_functions:
+            fl = None
+            for n in ast.walk(f.node):
+                obj = val = None
+                if flag_value(n) is not None:
+                    obj, val = n.args[0], flag_value(n)
+                elif isinstance(n, ast.Call) and call_name(n) in ("object.__setattr__", "setattr") and len(n.args) == 3 and \
+                        isinstance(n.args[1], ast.Constant) and n.args[1].value == FLAG:
+                    obj, val = n.args[0], n.args[2]
+                elif isinstance(n, ast.Assign) and f.name not in ("__init__", "__attrs_post_init__", "__post_init__"):
+                    obj, val = next(((t.value, n.value) for t in n.targets if isinstance(t, ast.Attribute) and t.attr == FLAG), (None, None))
+                if val is None:
+                    continue
+                n_flag += 1
+                fl = fl or Locals(f.node)
+                v = _only_value(fl, val.id) or val if isinstance(val, ast.Name) else val
+                kept = isinstance(v, ast.BoolOp) and isinstance(v.op, ast.Or) and any(norm(x) == f"{norm(obj)}.{FLAG}" or is_true(x, fl) for x in v.values)
+                rep.check(is_true(v, fl) or kept, "R03.10", f"{short(f)}::{FLAG}-only-raised",
+                          f"{FLAG} of an existing model is set to `{norm(val)}`: a class that an earlier operation sends as multipart loses "
+                          "to_multipart when a later one uses it as JSON or form data", where(f, n), lhs=norm(val), rhs=f"True, or `<object>.{FLAG} or ...`")
+        # (no minimum: when nothing sets the flag at all the first clause reports it - a verdict, not an analysis error)
+        rep.floor("multipart_flag_updates", n_flag, 0)
+
     # ---- R03.4 (shared shapes with C10) ------------------------------------------------------------------------------------
     gs = jx.templates["property_templates/helpers.jinja"].macros.get("guarded_statement")
     rep.require(gs, "guarded_statement")
@@ -1065,7 +1187,7 @@ def run(rep: Report, ctx: Any) -> str:
                   where=f"{PKG}/templates/{em.name}:{fr.line}", lhs=norm(c), rhs="true for every value that is neither UNSET nor None")
 
     # ---- R03.5 -------------------------------------------------------------------------------------------------------------
-    n_h = 0
+    n_h = n_th = 0
     for c in ix.property_classes():
         al = ix.find_classvar(c, "_allowed_locations")
         if al is None or "HEADER" not in norm(al[1]):
@@ -1081,7 +1203,43 @@ def run(rep: Report, ctx: Any) -> str:
         rep.check(ti is not None and "transform_header" in ti.macros, "R03.5", f"{c.name}::transform_header",
                   f"{c.name} is allowed in headers, its Python type is `{tstr or 'computed'}`, but {tname} defines no transform_header: httpx "
                   "rejects non-str header values", where=f"{PKG}/templates/property_templates/{tname}", lhs=tstr, rhs="transform_header macro")
+        th = ti.macros.get("transform_header") if ti is not None else None
+        if th is None or not th.args:
+            continue
+        # what transform_header writes, path by path: one Python expression, computed from the argument, a str whatever the value
+        # (httpx refuses anything else; a kind whose values are str only for some documents - an enum - is not a str)
+        n_th += 1
+        bad_paths = []
+        for env, ps in _paths(ti, th):
+            tree, holes = _py_of(ps, "eval")
+            src = {h for h, p in holes.items() if _flat(p.text) == th.args[0].name}
+            if tree is None or not _is_str(tree.body) or not (names_in(tree) & src):
+                bad_paths.append((_written(ps).replace(HOLE, "<>").strip()[:80], env))
+        rep.check(not bad_paths, "R03.5", f"{c.name}::transform_header-is-str", f"what {tname}::transform_header writes is not (on every path) "
+                  f"a str computed from its argument: httpx rejects non-str header values (e.g. {bad_paths[:1]})",
+                  where=f"{PKG}/templates/property_templates/{tname}:{th.lineno}", lhs=bad_paths[:3], rhs="str(<argument>) or another expression that is always a str")
     rep.floor("header_capable_kinds", n_h, 4)
+    rep.floor("header_transforms", n_th, 3)
+    # header_params stores what transform_header writes whenever the kind's template defines it: the value of the statement handed to
+    # guarded_statement, on every path on which `<template of the kind>.transform_header` is true
+    n_store = 0
+    unconverted = []
+    for env, ps in _paths(em, hp):
+        defined = [v for a, v in env.items() if re.search(r"\.transform_header\b(?!\()", a)]
+        for p in [p for p in ps if p.kind == "h" and isinstance(p.node, nodes.Call) and expr_text(p.node.node) == "guarded_statement" and len(p.args) >= 3]:
+            tree, holes = _py_of(p.args[2], "exec")
+            store = tree.body[0] if tree is not None and len(tree.body) == 1 and isinstance(tree.body[0], ast.Assign) else None
+            if store is None:
+                continue
+            n_store += 1
+            vals = [holes[n] for n in names_in(store.value) if n in holes]
+            through = any(re.search(r"\.transform_header\(", v.text) and any(re.search(r"\.python_name$", _flat(a.text)) for arg in v.args for a in arg if a.kind == "h")
+                          for v in vals)
+            if all(defined) and not through:
+                unconverted.append(norm(store.value))
+    rep.check(n_store > 0 and not unconverted, "R03.5", "header_params::value-through-transform_header",
+              "a header store does not take its value from transform_header although the kind's template defines it",
+              where=f"{PKG}/templates/{em.name}:{hp.lineno}", lhs=unconverted[:3] or n_store, rhs="<template>.transform_header(<parameter>.python_name)")
 
     # ---- R03.6 ---------------------------------------------------------------------------------------------------------------
     w = SkelWalker(jx, frozenset())
